@@ -55,7 +55,7 @@ class PythonCode:
             expr = code
 
         f = pyparser.FindIdentifiers(self, **exception_kwargs)
-        f.visit(expr)
+        pyparser.visit(f, expr, **exception_kwargs)
 
 
 class ArgumentList:
@@ -81,7 +81,7 @@ class ArgumentList:
             expr = code
 
         f = pyparser.FindTuple(self, PythonCode, **exception_kwargs)
-        f.visit(expr)
+        pyparser.visit(f, expr, **exception_kwargs)
 
 
 class PythonFragment(PythonCode):
@@ -140,7 +140,7 @@ class FunctionDecl:
         expr = pyparser.parse(code, "exec", **exception_kwargs)
 
         f = pyparser.ParseFunc(self, **exception_kwargs)
-        f.visit(expr)
+        pyparser.visit(f, expr, **exception_kwargs)
         if not hasattr(self, "funcname"):
             raise exceptions.CompileException(
                 "Code '%s' is not a function declaration" % code,
